@@ -95,14 +95,11 @@ Check root_preimage_is_content_encoding : forall s r,
   root_preimage s r = enc_content (reach_content s r).
 Print Assumptions root_preimage_is_content_encoding.
 
-(* FULL statement (false of the code as it is, DESIGN F2):
-     acc_agrees : forall s r, acc_root_preimage (from_state s) r = root_preimage s r. *)
-Theorem acc_agrees_refuted :
-  exists s r, acc_root_preimage (from_state s) r <> root_preimage s r.
-Proof. exact acc_agrees_refuted_w. Qed.
-Check acc_agrees_refuted :
-  exists s r, acc_root_preimage (from_state s) r <> root_preimage s r.
-Print Assumptions acc_agrees_refuted.
+(* The columnar accumulator agrees with snapshot.rs on the state that separated them before the
+   F2 fix (SnapshotAccumulator::compute_state_root omitted domain::STATE_ROOT_V1). *)
+Example acc_agrees_on_former_f2_witness :
+  acc_root_preimage (from_state f2_s) f2_root = root_preimage f2_s f2_root.
+Proof. exact f2_witness_agrees. Qed.
 
 (* Non-vacuity. ex_s1 / ex_s2: two instances linked by a portal on an edge slot; ex_s2 is built in
    another order and carries an unreachable node with an edge into the reachable part, orphan
